@@ -146,13 +146,46 @@ theorem route_act (T : Tree) (s : State) (b : Nat) : RouteAct T s b (route T s b
 
 /-! ## dirtyRun -/
 
+theorem dirtyRunAux_fuel2 (T : Tree) (s : State) : ∀ (f1 f2 b : Nat), b ≤ f1 → b ≤ f2 →
+    dirtyRunAux T s f1 b = dirtyRunAux T s f2 b := by
+  intro f1
+  induction f1 with
+  | zero =>
+    intro f2 b hb _
+    have : b = 0 := by omega
+    subst this
+    cases f2 <;> simp [dirtyRunAux]
+  | succ f1 ih =>
+    intro f2 b h1 h2
+    cases f2 with
+    | zero =>
+      have : b = 0 := by omega
+      subst this; simp [dirtyRunAux]
+    | succ f2 =>
+      by_cases hb : b = 0
+      · subst hb; simp [dirtyRunAux]
+      · have hp := T.par_lt hb
+        simp only [dirtyRunAux]
+        rw [ih f2 (T.par b) (by omega) (by omega)]
+
+theorem dirtyRunAux_fuel (T : Tree) (s : State) (fuel b : Nat) (h : b ≤ fuel) :
+    dirtyRunAux T s fuel b = dirtyRunAux T s b b :=
+  dirtyRunAux_fuel2 T s fuel b b h (Nat.le_refl b)
+
 theorem dirtyRun_zero (T : Tree) (s : State) : dirtyRun T s 0 = [] := by
-  rw [dirtyRun]; simp
+  simp [dirtyRun, dirtyRunAux]
 
 theorem dirtyRun_eq (T : Tree) (s : State) {b : Nat} (hb : b ≠ 0) :
     dirtyRun T s b =
       if s.ver b then [] else if (s.td b).isNone then [] else dirtyRun T s (T.par b) ++ [b] := by
-  rw [dirtyRun]; simp [hb]
+  cases b with
+  | zero => exact absurd rfl hb
+  | succ b' =>
+    have hp : T.par (b' + 1) ≤ b' := by have := T.par_lt (b := b' + 1) (by omega); omega
+    unfold dirtyRun
+    simp only [dirtyRunAux]
+    rw [dirtyRunAux_fuel T s b' _ hp]
+    simp
 
 /-- every member of the dirty run is a non-genesis, unverified block with an ext whose parent is
 in the run too, or verified, or without ext -/
@@ -326,11 +359,11 @@ theorem safe_deliver {T : Tree} {s : State} (h : Safe T s) (hint : List Nat) (b 
     by_cases hnc : T.nc b = true
     · simp only [hnc, Bool.not_true, Bool.false_eq_true, if_false]
       -- after insert_block + route
-      have hr : SameChain s (route T { s with seen := upd s.seen b true, stored := upd s.stored b true } b).1 ∧
-          (∀ x ∈ (route T { s with seen := upd s.seen b true, stored := upd s.stored b true } b).1.queue, x ≠ 0 ∧ T.nc x = true) ∧
-          (∀ x ∈ (route T { s with seen := upd s.seen b true, stored := upd s.stored b true } b).1.pool, x ≠ 0 ∧ T.nc x = true) := by
-        have hact := route_act T { s with seen := upd s.seen b true, stored := upd s.stored b true } b
-        generalize route T { s with seen := upd s.seen b true, stored := upd s.stored b true } b = r at hact ⊢
+      have hr : SameChain s (route T { s with seen := upd s.seen b true, stored := upd s.stored b true, commits := s.commits + 1 } b).1 ∧
+          (∀ x ∈ (route T { s with seen := upd s.seen b true, stored := upd s.stored b true, commits := s.commits + 1 } b).1.queue, x ≠ 0 ∧ T.nc x = true) ∧
+          (∀ x ∈ (route T { s with seen := upd s.seen b true, stored := upd s.stored b true, commits := s.commits + 1 } b).1.pool, x ≠ 0 ∧ T.nc x = true) := by
+        have hact := route_act T { s with seen := upd s.seen b true, stored := upd s.stored b true, commits := s.commits + 1 } b
+        generalize route T { s with seen := upd s.seen b true, stored := upd s.stored b true, commits := s.commits + 1 } b = r at hact ⊢
         cases hact with
         | accept _ =>
           refine ⟨⟨rfl, rfl, rfl, rfl⟩, ?_, h.poolNc⟩
@@ -390,7 +423,8 @@ theorem safe_expire {T : Tree} {s : State} (h : Safe T s) : Safe T (expire T s) 
 /-- the state a best-block commit produces (before the volatile bookkeeping of `verifyDone`) -/
 def bestState (T : Tree) (s : State) (b : Nat) (q : List Nat) (td : Nat) : State :=
   { s with queue := q, td := upd s.td b (some td),
-           ver := fun x => decide (x ∈ dirtyRun T s (T.par b) ++ [b]) || s.ver x, tip := b, tipTd := td }
+           ver := fun x => decide (x ∈ dirtyRun T s (T.par b) ++ [b]) || s.ver x, tip := b, tipTd := td,
+           commits := s.commits + 1 }
 
 inductive VerifyAct (T : Tree) (s : State) : State × Out → Prop
   | empty : s.queue = [] → VerifyAct T s (s, [])
@@ -408,7 +442,8 @@ inductive VerifyAct (T : Tree) (s : State) : State × Out → Prop
       VerifyAct T s (verifyDone (bestState T s b q (ptd + T.work b)) b Verdict.okNew)
   | side (b : Nat) (q : List Nat) (ptd : Nat) : s.queue = b :: q → s.invalid (T.par b) = false →
       s.td (T.par b) = some ptd → ¬ (s.tipTd < ptd + T.work b) →
-      VerifyAct T s (verifyDone { s with queue := q, td := upd s.td b (some (ptd + T.work b)) } b Verdict.okNew)
+      VerifyAct T s (verifyDone { s with queue := q, td := upd s.td b (some (ptd + T.work b)),
+                                         commits := s.commits + 1 } b Verdict.okNew)
 
 theorem verifyHead_act (T : Tree) (s : State) : VerifyAct T s (verifyHead T s) := by
   unfold verifyHead
@@ -624,7 +659,7 @@ theorem deliver_sameChain (T : Tree) (hint : List Nat) (s : State) (b : Nat) :
   · simp only [hb, if_false]
     by_cases hnc : T.nc b = true
     · simp only [hnc, Bool.not_true, Bool.false_eq_true, if_false]
-      have h1 : SameChain s { s with seen := upd s.seen b true, stored := upd s.stored b true } :=
+      have h1 : SameChain s { s with seen := upd s.seen b true, stored := upd s.stored b true, commits := s.commits + 1 } :=
         ⟨rfl, rfl, rfl, rfl⟩
       exact (h1.trans (route_sameChain T _ b)).trans (search_sameChain T hint _)
     · have : T.nc b = false := by simpa using hnc
